@@ -229,8 +229,17 @@ func c04Scenario(r *sim.Run) {
 	}
 
 	// one connection of a session: returns true if the data came back intact
-	connect := func(se *c04Session, id int, data []byte, cuts, tail []int, pauses []time.Duration, natural bool, label string) bool {
+	// long: 0 = the covert echoes; 1 = one-way upload (the covert only receives; after the first
+	// flight the client sends five more chunks, 12 s apart); 2 = one-way download (the covert sends
+	// five chunks, 12 s apart, the client is silent after its first flight). The transfer lasts a
+	// minute with one direction idle all the time: every byte must still arrive.
+	connect := func(se *c04Session, id int, data []byte, cuts, tail []int, pauses []time.Duration, natural bool, label string, long int) bool {
 		c := se.c
+		w.mu.Lock()
+		w.covertMode[c.covert] = []string{"", "sink", "drip"}[long]
+		w.mu.Unlock()
+		var wr net.Conn
+		flush := func() {}
 		phantom := c.phantom(v6)
 		cli := simnet.TCP(fmt.Sprintf("198.51.100.%d", 100+id), 40000+id)
 		if v6 {
@@ -252,8 +261,9 @@ func c04Scenario(r *sim.Run) {
 				return !fail(se, "relay-broken", "%s: writing %d application bytes failed: %v", label, len(data), simnet.ErrName(err))
 			}
 			sc.Flush()
-			rd = wc
+			rd, wr, flush = wc, wc, func() { sc.Flush() } // (the segmenting connection below the obfs4 client holds bytes back until flushed)
 		} else {
+			wr = conn.H
 			capc := &stCaptureConn{}
 			if _, err := c.ct.WrapConn(capc); err != nil {
 				r.Fail("harness/c04-flight", "%v", err)
@@ -275,7 +285,35 @@ func c04Scenario(r *sim.Run) {
 				return !fail(se, "closed-while-sending", "%s: the station ended the connection while the client was sending its first flight: %v", label, simnet.ErrName(err))
 			}
 		}
-		got, err := stReadN(rd, len(data), 30*time.Second)
+		var got []byte
+		var err error
+		switch long {
+		case 1:
+			for k := 0; k < 5; k++ {
+				time.Sleep(12 * time.Second)
+				if _, werr := wr.Write(stDripChunk(k)); werr != nil {
+					conn.H.Close()
+					return !fail(se, "relay-broken/one-way-upload", "%s: %d s into a one-way upload (the covert is silent) the client's write failed: %v", label, 12*(k+1), simnet.ErrName(werr))
+				}
+				flush()
+				data = append(append([]byte(nil), data...), stDripChunk(k)...)
+			}
+			time.Sleep(time.Second)
+			r.Probe("one_way_upload_for_a_minute")
+		case 2:
+			var want []byte
+			for k := 0; k < 5; k++ {
+				want = append(want, stDripChunk(k)...)
+			}
+			got, err = stReadN(rd, len(want), 90*time.Second)
+			if err != nil || !bytes.Equal(got, want) {
+				conn.H.Close()
+				return !fail(se, "data-mismatch/one-way-download", "%s: the covert sent %d bytes over a minute (the client is silent): the client got %d of them (err %v)", label, len(want), len(got), simnet.ErrName(err))
+			}
+			r.Probe("one_way_download_for_a_minute")
+		default:
+			got, err = stReadN(rd, len(data), 30*time.Second)
+		}
 		w.settle()
 		conn.H.Close()
 		// which covert did the station dial for this connection?
@@ -295,6 +333,20 @@ func c04Scenario(r *sim.Run) {
 		w.mu.Unlock()
 		if mine == 0 {
 			return !fail(se, "not-recognised", "%s: the station never dialled the client's covert %s (echo read: %d/%d bytes, err %v)", label, c.covert, len(got), len(data), simnet.ErrName(err))
+		}
+		if long != 0 {
+			// one-way transfers: what the covert received is what the client sent
+			up := []byte(nil)
+			if cv != nil {
+				up = cv.H.Got
+			}
+			if !bytes.Equal(up, data) {
+				return !fail(se, "data-mismatch/up", "%s: the covert received %d bytes, the client sent %d application bytes (one-way transfer of a minute)", label, len(up), len(data))
+			}
+			if mine > 1 {
+				return !fail(se, "dialled-twice", "%s: %d dials for one connection", label, mine)
+			}
+			return true
 		}
 		if len(data) > 0 && (err != nil || !bytes.Equal(got, data)) {
 			up := []byte(nil)
@@ -362,7 +414,7 @@ func c04Scenario(r *sim.Run) {
 		for i, se := range sess {
 			i, se := i, se
 			s.Spawn(fmt.Sprintf("client%d", i), func() {
-				se.ok = connect(se, i, se.data, se.cuts, se.tail, se.pauses, se.natural, "first connection")
+				se.ok = connect(se, i, se.data, se.cuts, se.tail, se.pauses, se.natural, "first connection", 0)
 				done <- true
 			})
 		}
@@ -383,7 +435,13 @@ func c04Scenario(r *sim.Run) {
 			}
 			r.Nontrivial()
 			before := len(w.dials)
-			ok := connect(se, 10+i, c04Data(20+i, 7), nil, nil, nil, false, "second connection after 11 min + sweep")
+			long := tp.Choose("one-way", 6) // 0-3: echo, 4: one-way upload, 5: one-way download
+			if long < 4 {
+				long = 0
+			} else {
+				long -= 3
+			}
+			ok := connect(se, 10+i, c04Data(20+i, 7), nil, nil, nil, false, "second connection after 11 min + sweep"+[]string{"", " (one-way upload)", " (one-way download)"}[long], long)
 			_ = before
 			if !ok || r.Failed() {
 				// distinguish "not marked used" from a generic failure: the first connection worked
